@@ -245,7 +245,12 @@ def x3_check():
         "grouped_not_in_column_order": lambda: t >> pdt.group_by(t.c, t.a),
         "grouped_add": lambda: t >> pdt.group_by(t.b) >> pdt.group_by(t.a, add=True),
         "filter_arrange": lambda: t >> pdt.filter(t.a > 1) >> pdt.arrange(t.b.descending()),
+        "rename_plain": lambda: t >> pdt.rename({"a": "z"}),
+        "join_auto_suffix": lambda: t >> pdt.left_join(u, t.a == u.a),
+        "join_auto_suffix_rename": lambda: t >> pdt.left_join(u, t.a == u.a) >> pdt.rename({"w_u": "b", "b": "w_u"}),
     }
+    u = pdt.Table(pl.DataFrame({"a": [2, 2, 5], "b": [7.0, 8.0, 9.0], "w": [1, 2, 3]}), name="u")
+    old_handles = {"t.a": t.a, "t.b": t.b, "t.c": t.c, "u.a": u.a, "u.b": u.b, "u.w": u.w}
     for name, mk in pipes.items():
         for keep in (True, False):
             n += 1
@@ -271,6 +276,22 @@ def x3_check():
                         r2 = (col >> pdt.ungroup() >> pdt.mutate(__p=c) >> pdt.export(pdt.Polars()))["__p"].to_list()
                         if r1 != r2:
                             bad.append(f"{name}: reference {c.name} reads other data after collect()")
+                    # ... and so do the references taken from the source tables BEFORE the pipeline renamed / suffixed the columns
+                    for hn, hcol in old_handles.items():
+                        if hcol._uuid not in src._cache.uuid_to_name:
+                            continue  # not a visible column of this pipeline (collect materialises the visible columns)
+                        try:
+                            r1 = (src >> pdt.ungroup() >> pdt.mutate(__p=hcol) >> pdt.export(pdt.Polars()))["__p"].to_list()
+                        except pdt.errors.ColumnNotFoundError:
+                            continue  # not a column of this pipeline
+                        try:
+                            r2 = (col >> pdt.ungroup() >> pdt.mutate(__p=hcol) >> pdt.export(pdt.Polars()))["__p"].to_list()
+                            nm1, nm2 = src[hcol].name, col[hcol].name
+                        except Exception as e:  # noqa: BLE001
+                            bad.append(f"{name}: the earlier reference {hn} is lost by collect(): {type(e).__name__}")
+                            continue
+                        if r1 != r2 or nm1 != nm2:
+                            bad.append(f"{name}: the earlier reference {hn} denotes column {nm2!r} with {r2} after collect(), {nm1!r} with {r1} before")
                 if keep and src._cache.partition_by:
                     # the grouping (columns AND their order) survives collect(): the same summarize gives the same table
                     # (stated for collect() with its default keep_col_refs=True; collect(keep_col_refs=False) returns a fresh ungrouped table)
@@ -509,7 +530,7 @@ def obligations(tier):
     sk = [TS.Skeleton(c) for c in (("vis",), ("vis", "vis"), ("vis", "hid"), ("hid", "vis", "vis"))]
     for ls, rs in itertools.product(sk, sk):
         obs.append(Obligation(f"C16/X4/{ls}<-{rs}", "X4", "transfer_col_references", make_x4(ls, rs), functions=[fi(pdt._internal.pipe.cache.transfer_col_references), fi(TS.Cache.update)], bounded=f"widths {ls.w}, {rs.w} (names symbolic)"))
-    obs.append(Obligation("C16/X3/collect", "X3", "collect() keeps names, order, data, types, references and grouping", _conc("collect() on 8 pipelines x keep_col_refs", x3_check), functions=[fi(verbs_mod.collect), fi(H.table_impl_mod.TableImpl.from_resource)], bounded="8 concrete pipelines on one frame (native Polars execution)"))
+    obs.append(Obligation("C16/X3/collect", "X3", "collect() keeps names, order, data, types, references and grouping", _conc("collect() on 8 pipelines x keep_col_refs", x3_check), functions=[fi(verbs_mod.collect), fi(H.table_impl_mod.TableImpl.from_resource)], bounded="13 concrete pipelines (incl. renames and joins with automatic suffixes, references taken before them) on two frames (native Polars execution)"))
     obs.append(Obligation("C16/X5/self_join", "X5", "self-join after alias() on Polars and SQLite", _conc("self-joins of aliased (derived) tables execute and match the expected row count; occurrences are aliased apart in SQL", x5_check),
                           functions=[fi(verbs_mod.join), fi(H.sql_backend.create_aliases), fi(VT.Join._clone)], bounded="3 concrete self-join shapes x 2 backends (native execution)"))
     obs.append(Obligation("C16/X5b/self_join_sides", "X5", "self-join with the alias copy on either side: references denote the right side", _conc("references through either table object of an aliased self-join denote that side (4 shapes x 2 backends, against a hand-computed expectation)", x5b_check),
